@@ -1,11 +1,594 @@
-//! (not built yet)
-use serde_json::Value;
-use vcore::Run;
+//! C05 — control-plane interpretation is independent of segmentation and interleaving.
 
-pub fn run(run: &Run) {
-    run.inconclusive("check not built yet");
+use crate::common::*;
+use proptest::prelude::*;
+use serde::{Deserialize, Serialize};
+use serde_json::Value;
+use std::sync::atomic::Ordering;
+use std::sync::{Arc, Mutex};
+use std::time::Duration;
+use vcore::{prop_search, Outcome, Run, Search};
+use wire::*;
+use wtransport::Connection;
+
+const RULE: &str = "case = role x runtime flavour x target frame in {SETTINGS on the control stream, GREASE frame after SETTINGS, request HEADERS (wtransport server), response HEADERS (wtransport client), GREASE frame before the response, close capsule on the established session stream, unknown capsule before the close capsule} x 1..3 cut positions inside the target (table: every single position of every target) x events injected between the pieces in {none, datagram of the session, datagram of a foreign session, WebTransport uni stream, GREASE uni stream, WebTransport bidi stream, bytes on the QPACK encoder stream, several}. Metamorphic oracle: the outcome (session established, kept alive, termination value, close code seen by the raw peer) equals that of the same script delivered in one piece with nothing in between (re-executed as twin whenever the perturbed run deviates), and the injected healthy traffic is itself delivered. Non-trivial: a worker loop iteration and a partially-progressed control-plane read future drop were observed between two pieces (hook counters; coverage only) or the cut falls on a field boundary with an event in between; distinct = distinct case";
+
+#[derive(Clone, Copy, Debug, Serialize, Deserialize, PartialEq, Eq, Hash)]
+pub enum Target {
+    Settings,
+    GreaseAfterSettings,
+    RequestHeaders,
+    ResponseHeaders,
+    GreaseBeforeResponse,
+    CloseCapsule,
+    UnknownCapsuleBeforeClose,
 }
 
-pub fn replay(_run: &Run, _doc: &Value) -> bool {
-    false
+#[derive(Clone, Copy, Debug, Serialize, Deserialize, PartialEq, Eq, Hash)]
+pub enum Event {
+    DatagramOwn,
+    DatagramForeign,
+    UniWt,
+    UniGrease,
+    BidiWt,
+    QpackBytes,
+}
+
+#[derive(Clone, Debug, Serialize, Deserialize)]
+pub struct Case {
+    pub flavor: u8,
+    pub wt_is_server: bool,
+    pub target: Target,
+    /// cut selectors mapped monotonically onto 1..len-1 of the target bytes
+    pub cuts: Vec<u16>,
+    /// events injected after each piece (cycled)
+    pub events: Vec<Vec<Event>>,
+    pub code: u32,
+    pub reason: String,
+}
+
+fn target_strategy() -> impl Strategy<Value = Target> {
+    prop_oneof![
+        3 => Just(Target::Settings),
+        2 => Just(Target::GreaseAfterSettings),
+        2 => Just(Target::RequestHeaders),
+        2 => Just(Target::ResponseHeaders),
+        1 => Just(Target::GreaseBeforeResponse),
+        4 => Just(Target::CloseCapsule),
+        2 => Just(Target::UnknownCapsuleBeforeClose),
+    ]
+}
+
+fn event_strategy() -> impl Strategy<Value = Event> {
+    prop_oneof![3 => Just(Event::DatagramOwn), 1 => Just(Event::DatagramForeign), 2 => Just(Event::UniWt), 1 => Just(Event::UniGrease), 2 => Just(Event::BidiWt), 1 => Just(Event::QpackBytes)]
+}
+
+pub fn case_strategy() -> impl Strategy<Value = Case> {
+    (0u8..3, any::<bool>(), target_strategy(), proptest::collection::vec(any::<u16>(), 1..4), proptest::collection::vec(proptest::collection::vec(event_strategy(), 0..3), 1..4), any::<u32>(), "[a-z ]{0,20}")
+        .prop_map(|(flavor, wt_is_server, target, cuts, events, code, reason)| {
+            // targets that only exist for one role
+            let wt_is_server = match target {
+                Target::RequestHeaders => true,
+                Target::ResponseHeaders | Target::GreaseBeforeResponse => false,
+                _ => wt_is_server,
+            };
+            Case { flavor, wt_is_server, target, cuts, events, code, reason }
+        })
+}
+
+/// Bytes of the target frame(s) for this case and the stream they travel on.
+fn target_bytes(case: &Case, authority: &str) -> Vec<u8> {
+    match case.target {
+        Target::Settings => refcodec::enc_frame(refcodec::registry::FRAME_SETTINGS, &refcodec::enc_settings(&default_settings())),
+        Target::GreaseAfterSettings => refcodec::enc_frame(refcodec::grease(5), b"grease payload 0123456789"),
+        Target::RequestHeaders => headers_frame(&{
+            let mut f = connect_request_fields(authority, "/c05/some/longer/path?with=query");
+            f.push(("origin".into(), "https://example.org".into(), Default::default()));
+            f
+        }),
+        Target::ResponseHeaders => response_frame("200", &[("server".into(), "raw-peer".into())]),
+        Target::GreaseBeforeResponse => refcodec::enc_frame(refcodec::grease(9), b"0123456789abcdef"),
+        Target::CloseCapsule => refcodec::enc_frame(refcodec::registry::FRAME_DATA, &refcodec::enc_close_capsule(case.code, case.reason.as_bytes())),
+        Target::UnknownCapsuleBeforeClose => refcodec::enc_frame(refcodec::registry::FRAME_DATA, &refcodec::enc_capsule(refcodec::registry::CAPSULE_DRAIN_WT_SESSION, b"")),
+    }
+}
+
+fn pieces(bytes: &[u8], cuts: &[u16]) -> Vec<Vec<u8>> {
+    let n = bytes.len();
+    let mut pos: Vec<usize> = cuts.iter().map(|c| 1 + vcore::pick_idx(*c, n.saturating_sub(1).max(1))).filter(|p| *p < n).collect();
+    pos.sort();
+    pos.dedup();
+    let mut out = Vec::new();
+    let mut last = 0;
+    for p in pos {
+        out.push(bytes[last..p].to_vec());
+        last = p;
+    }
+    out.push(bytes[last..].to_vec());
+    out
+}
+
+#[derive(Default, Debug, Clone, PartialEq)]
+struct Injected {
+    own_datagrams: usize,
+    wt_uni: usize,
+    wt_bi: usize,
+}
+
+struct Raw {
+    conn: quinn::Connection,
+    qpack: Option<quinn::SendStream>,
+    held: Vec<Box<dyn std::any::Any + Send>>,
+    injected: Injected,
+}
+
+impl Raw {
+    async fn inject(&mut self, ev: Event, session: u64) {
+        match ev {
+            Event::DatagramOwn => {
+                let n = self.injected.own_datagrams;
+                if self.conn.send_datagram(refcodec::enc_datagram(session, format!("own-{n}").as_bytes()).into()).is_ok() {
+                    self.injected.own_datagrams += 1;
+                }
+            }
+            Event::DatagramForeign => {
+                let _ = self.conn.send_datagram(refcodec::enc_datagram(session + 8, b"foreign").into());
+            }
+            Event::UniWt => {
+                if let Ok(mut s) = self.conn.open_uni().await {
+                    let mut b = refcodec::enc_uni_header_wt(session);
+                    b.extend_from_slice(format!("uni-{}", self.injected.wt_uni).as_bytes());
+                    if s.write_all(&b).await.is_ok() {
+                        let _ = s.finish();
+                        self.injected.wt_uni += 1;
+                    }
+                    self.held.push(Box::new(s));
+                }
+            }
+            Event::UniGrease => {
+                if let Ok(mut s) = self.conn.open_uni().await {
+                    let mut b = refcodec::enc_varint(refcodec::grease(3));
+                    b.extend_from_slice(b"whatever");
+                    let _ = s.write_all(&b).await;
+                    self.held.push(Box::new(s));
+                }
+            }
+            Event::BidiWt => {
+                if let Ok((mut s, r)) = self.conn.open_bi().await {
+                    let mut b = refcodec::enc_bi_header_wt(session);
+                    b.extend_from_slice(format!("bi-{}", self.injected.wt_bi).as_bytes());
+                    if s.write_all(&b).await.is_ok() {
+                        let _ = s.finish();
+                        self.injected.wt_bi += 1;
+                    }
+                    self.held.push(Box::new((s, r)));
+                }
+            }
+            Event::QpackBytes => {
+                if self.qpack.is_none() {
+                    if let Ok(mut s) = self.conn.open_uni().await {
+                        let _ = s.write_all(&refcodec::enc_varint(refcodec::registry::STREAM_QPACK_ENCODER)).await;
+                        self.qpack = Some(s);
+                    }
+                }
+                if let Some(s) = self.qpack.as_mut() {
+                    // "set dynamic table capacity 0" instruction: harmless for a zero-capacity table
+                    let _ = s.write_all(&[0x20]).await;
+                }
+            }
+        }
+    }
+
+    /// Writes the target in pieces with the case's events in between.
+    async fn write_perturbed(&mut self, s: &mut quinn::SendStream, bytes: &[u8], case: &Case, session: u64, perturb: bool, hazard: &mut bool) -> Res<()> {
+        if !perturb {
+            return s.write_all(bytes).await.map_err(|e| e.to_string());
+        }
+        let ps = pieces(bytes, &case.cuts);
+        let n = ps.len();
+        for (i, p) in ps.iter().enumerate() {
+            if i + 1 < n {
+                write_cut(&self.conn, s, p, Duration::from_millis(12)).await?;
+                let loops0 = wtransport::verif_hooks::WORKER_LOOP_ITERATIONS.load(Ordering::Relaxed);
+                let drops0 = wtransport::proto::verif_hooks::PARTIAL_READ_DROPS.load(Ordering::Relaxed);
+                for ev in &case.events[i % case.events.len()] {
+                    self.inject(*ev, session).await;
+                }
+                flush_acked(&self.conn, Duration::from_millis(200)).await;
+                tokio::time::sleep(Duration::from_millis(12)).await;
+                let loops1 = wtransport::verif_hooks::WORKER_LOOP_ITERATIONS.load(Ordering::Relaxed);
+                let drops1 = wtransport::proto::verif_hooks::PARTIAL_READ_DROPS.load(Ordering::Relaxed);
+                if loops1 > loops0 && drops1 > drops0 {
+                    *hazard = true;
+                }
+            } else {
+                s.write_all(p).await.map_err(|e| e.to_string())?;
+            }
+        }
+        Ok(())
+    }
+}
+
+/// Observable outcome of a run.
+#[derive(Debug, Clone, PartialEq)]
+struct Out {
+    established: bool,
+    alive: bool,
+    termination: Option<String>,
+    peer_saw_close: Option<String>,
+    delivered: Injected,
+    injected: Injected,
+    hazard: bool,
+    note: String,
+}
+
+async fn drain_app(conn: &Connection, inj: &Injected, bound: Duration) -> Injected {
+    let got = Arc::new(Mutex::new(Injected::default()));
+    let deadline = tokio::time::Instant::now() + bound;
+    let want = inj.clone();
+    let c1 = conn.clone();
+    let g1 = got.clone();
+    let t1 = tokio::spawn(async move {
+        while g1.lock().unwrap().wt_uni < want.wt_uni {
+            match tokio::time::timeout_at(deadline, c1.accept_uni()).await {
+                Ok(Ok(mut r)) => {
+                    let mut b = [0u8; 32];
+                    if let Ok(Some(n)) = r.read(&mut b).await {
+                        if b[..n].starts_with(b"uni-") {
+                            g1.lock().unwrap().wt_uni += 1;
+                        }
+                    }
+                }
+                _ => break,
+            }
+        }
+    });
+    let want = inj.clone();
+    let c2 = conn.clone();
+    let g2 = got.clone();
+    let t2 = tokio::spawn(async move {
+        while g2.lock().unwrap().wt_bi < want.wt_bi {
+            match tokio::time::timeout_at(deadline, c2.accept_bi()).await {
+                Ok(Ok((_s, mut r))) => {
+                    let mut b = [0u8; 32];
+                    if let Ok(Some(n)) = r.read(&mut b).await {
+                        if b[..n].starts_with(b"bi-") {
+                            g2.lock().unwrap().wt_bi += 1;
+                        }
+                    }
+                }
+                _ => break,
+            }
+        }
+    });
+    let want = inj.clone();
+    let c3 = conn.clone();
+    let g3 = got.clone();
+    let t3 = tokio::spawn(async move {
+        // datagrams may legitimately be dropped when queues are full: one is enough
+        while want.own_datagrams > 0 && g3.lock().unwrap().own_datagrams == 0 {
+            match tokio::time::timeout_at(deadline, c3.receive_datagram()).await {
+                Ok(Ok(d)) => {
+                    if d.payload().starts_with(b"own-") {
+                        g3.lock().unwrap().own_datagrams += 1;
+                    }
+                }
+                _ => break,
+            }
+        }
+    });
+    let _ = tokio::join!(t1, t2, t3);
+    let g = got.lock().unwrap().clone();
+    g
+}
+
+async fn run_script(case: Arc<Case>, perturb: bool) -> Result<Out, String> {
+    let mut out = Out { established: false, alive: false, termination: None, peer_saw_close: None, delivered: Injected::default(), injected: Injected::default(), hazard: false, note: String::new() };
+    let session = 0u64;
+    let t = Tuning::default();
+    if case.wt_is_server {
+        let server_ep = wt_server(&t);
+        let addr = server_ep.local_addr().map_err(|e| e.to_string())?;
+        let authority = addr.to_string();
+        let accept = async {
+            let incoming = server_ep.accept().await;
+            let req = incoming.await.map_err(|e| format!("incoming: {}", conn_err(&e)))?;
+            req.accept().await.map_err(|e| format!("accept: {}", conn_err(&e)))
+        };
+        let case2 = case.clone();
+        let script = async {
+            let (ep, conn) = raw_connect(addr, &t).await?;
+            let mut raw = Raw { conn: conn.clone(), qpack: None, held: vec![], injected: Injected::default() };
+            let mut hazard = false;
+            // reserve stream 0 for the CONNECT request before any injected bidi stream takes it
+            let (mut rs, mut rr) = conn.open_bi().await.map_err(|e| e.to_string())?;
+            let mut control = conn.open_uni().await.map_err(|e| e.to_string())?;
+            control.write_all(&refcodec::enc_varint(refcodec::registry::STREAM_CONTROL)).await.map_err(|e| e.to_string())?;
+            let settings = refcodec::enc_frame(refcodec::registry::FRAME_SETTINGS, &refcodec::enc_settings(&default_settings()));
+            if case2.target == Target::Settings {
+                let b = target_bytes(&case2, &authority);
+                raw.write_perturbed(&mut control, &b, &case2, session, perturb, &mut hazard).await?;
+            } else {
+                control.write_all(&settings).await.map_err(|e| e.to_string())?;
+            }
+            if case2.target == Target::GreaseAfterSettings {
+                let b = target_bytes(&case2, &authority);
+                raw.write_perturbed(&mut control, &b, &case2, session, perturb, &mut hazard).await?;
+            }
+            if case2.target == Target::RequestHeaders {
+                let b = target_bytes(&case2, &authority);
+                raw.write_perturbed(&mut rs, &b, &case2, session, perturb, &mut hazard).await?;
+            } else {
+                rs.write_all(&headers_frame(&connect_request_fields(&authority, "/"))).await.map_err(|e| e.to_string())?;
+            }
+            let mut buf = Vec::new();
+            let resp = read_frame_of(&mut rr, &mut buf, &[refcodec::registry::FRAME_HEADERS], Duration::from_secs(4)).await;
+            Ok::<_, String>((ep, conn, raw, control, rs, rr, hazard, resp.is_ok()))
+        };
+        let (s, c) = tokio::join!(tokio::time::timeout(Duration::from_secs(6), accept), script);
+        let (ep, conn, mut raw, control, mut rs, rr, mut hazard, got_response) = c?;
+        let server = match s {
+            Ok(Ok(s)) => Some(s),
+            Ok(Err(e)) => {
+                out.note = e;
+                None
+            }
+            Err(_) => {
+                out.note = "server never obtained the session".into();
+                None
+            }
+        };
+        out.established = server.is_some() && got_response;
+        if let Some(server) = &server {
+            finish_script(&case, perturb, &mut out, server, &mut raw, &mut rs, session, &mut hazard).await?;
+        } else {
+            out.peer_saw_close = conn.close_reason().map(|e| format!("{:?}", close_seen(&e)));
+        }
+        out.injected = raw.injected.clone();
+        out.hazard = hazard;
+        drop((ep, control, rr, server_ep));
+        Ok(out)
+    } else {
+        let (raw_ep, addr) = raw_server(&t)?;
+        let client_ep = wt_client(&t);
+        let case2 = case.clone();
+        let serve = async {
+            let incoming = tokio::time::timeout(Duration::from_secs(5), raw_ep.accept()).await.map_err(|_| "no incoming")?.ok_or("closed")?;
+            let conn = incoming.await.map_err(|e| e.to_string())?;
+            let mut raw = Raw { conn: conn.clone(), qpack: None, held: vec![], injected: Injected::default() };
+            let mut hazard = false;
+            let mut control = conn.open_uni().await.map_err(|e| e.to_string())?;
+            control.write_all(&refcodec::enc_varint(refcodec::registry::STREAM_CONTROL)).await.map_err(|e| e.to_string())?;
+            let settings = refcodec::enc_frame(refcodec::registry::FRAME_SETTINGS, &refcodec::enc_settings(&default_settings()));
+            if case2.target == Target::Settings {
+                raw.write_perturbed(&mut control, &settings, &case2, session, perturb, &mut hazard).await?;
+            } else {
+                control.write_all(&settings).await.map_err(|e| e.to_string())?;
+            }
+            if case2.target == Target::GreaseAfterSettings {
+                let b = target_bytes(&case2, "");
+                raw.write_perturbed(&mut control, &b, &case2, session, perturb, &mut hazard).await?;
+            }
+            let (mut rs, mut rr) = tokio::time::timeout(Duration::from_secs(5), conn.accept_bi()).await.map_err(|_| "no request stream")?.map_err(|e| e.to_string())?;
+            let mut buf = Vec::new();
+            read_frame_of(&mut rr, &mut buf, &[refcodec::registry::FRAME_HEADERS], Duration::from_secs(4)).await?;
+            if case2.target == Target::GreaseBeforeResponse {
+                let b = target_bytes(&case2, "");
+                raw.write_perturbed(&mut rs, &b, &case2, session, perturb, &mut hazard).await?;
+            }
+            if case2.target == Target::ResponseHeaders {
+                let b = target_bytes(&case2, "");
+                raw.write_perturbed(&mut rs, &b, &case2, session, perturb, &mut hazard).await?;
+            } else {
+                rs.write_all(&response_frame("200", &[])).await.map_err(|e| e.to_string())?;
+            }
+            Ok::<_, String>((conn, raw, control, rs, rr, hazard))
+        };
+        let connect = async { tokio::time::timeout(Duration::from_secs(8), client_ep.connect(url_for(addr, "/"))).await };
+        let (s, c) = tokio::join!(serve, connect);
+        let (conn, mut raw, control, mut rs, rr, mut hazard) = s?;
+        let client = match c {
+            Ok(Ok(c)) => Some(c),
+            Ok(Err(e)) => {
+                out.note = format!("connect: {e}");
+                None
+            }
+            Err(_) => {
+                out.note = "connect never completed".into();
+                None
+            }
+        };
+        out.established = client.is_some();
+        if let Some(client) = &client {
+            finish_script(&case, perturb, &mut out, client, &mut raw, &mut rs, session, &mut hazard).await?;
+        } else {
+            tokio::time::sleep(Duration::from_millis(50)).await;
+            out.peer_saw_close = conn.close_reason().map(|e| format!("{:?}", close_seen(&e)));
+        }
+        out.injected = raw.injected.clone();
+        out.hazard = hazard;
+        drop((control, rr, raw_ep, client_ep));
+        Ok(out)
+    }
+}
+
+/// Second half of the script once the session is up: liveness, delivery of the injected traffic,
+/// and (for the capsule targets) the termination value.
+async fn finish_script(case: &Arc<Case>, perturb: bool, out: &mut Out, app: &Connection, raw: &mut Raw, req_send: &mut quinn::SendStream, session: u64, hazard: &mut bool) -> Result<(), String> {
+    let capsule_target = matches!(case.target, Target::CloseCapsule | Target::UnknownCapsuleBeforeClose);
+    if capsule_target {
+        // pending peer-waiting calls while the capsule arrives in pieces
+        let c = app.clone();
+        let pending = tokio::spawn(async move {
+            match c.accept_bi().await {
+                Ok(_) => "Ok".to_string(),
+                Err(e) => conn_err(&e),
+            }
+        });
+        let close = refcodec::enc_frame(refcodec::registry::FRAME_DATA, &refcodec::enc_close_capsule(case.code, case.reason.as_bytes()));
+        if case.target == Target::UnknownCapsuleBeforeClose {
+            let b = target_bytes(case, "");
+            raw.write_perturbed(req_send, &b, case, session, perturb, hazard).await?;
+            req_send.write_all(&close).await.map_err(|e| e.to_string())?;
+        } else {
+            raw.write_perturbed(req_send, &close, case, session, perturb, hazard).await?;
+        }
+        let _ = req_send.finish();
+        // a pending accept_bi may be satisfied by an injected bidi stream first: keep asking
+        let mut res = match tokio::time::timeout(Duration::from_secs(4), pending).await {
+            Ok(Ok(r)) => r,
+            _ => "hang".to_string(),
+        };
+        let mut guard = 0;
+        while res == "Ok" && guard < 8 {
+            guard += 1;
+            res = match tokio::time::timeout(Duration::from_secs(4), app.accept_bi()).await {
+                Ok(Ok(_)) => "Ok".to_string(),
+                Ok(Err(e)) => conn_err(&e),
+                Err(_) => "hang".to_string(),
+            };
+        }
+        out.termination = Some(res);
+        out.alive = true;
+        tokio::time::sleep(Duration::from_millis(30)).await;
+        out.peer_saw_close = raw.conn.close_reason().map(|e| format!("{:?}", close_seen(&e)));
+        return Ok(());
+    }
+    // kept alive?
+    tokio::time::sleep(Duration::from_millis(150)).await;
+    out.peer_saw_close = raw.conn.close_reason().map(|e| format!("{:?}", close_seen(&e)));
+    // a fresh exchange still works
+    raw.inject(Event::UniWt, session).await;
+    out.delivered = drain_app(app, &raw.injected, Duration::from_secs(3)).await;
+    out.alive = raw.conn.close_reason().is_none() && out.delivered.wt_uni == raw.injected.wt_uni;
+    Ok(())
+}
+
+fn expected_termination(case: &Case) -> Option<String> {
+    match case.target {
+        Target::CloseCapsule | Target::UnknownCapsuleBeforeClose => Some(format!("ApplicationClosed({},{})", case.code, vcore::hex(case.reason.as_bytes()))),
+        _ => None,
+    }
+}
+
+fn judge_out(case: &Case, o: &Out) -> Option<String> {
+    if !o.established {
+        return Some(format!("session not established ({}); peer saw {:?}", o.note, o.peer_saw_close));
+    }
+    if let Some(want) = expected_termination(case) {
+        if o.termination.as_deref() != Some(want.as_str()) {
+            return Some(format!("termination reported as {:?}, the peer sent {want}; peer saw {:?}", o.termination, o.peer_saw_close));
+        }
+        return None;
+    }
+    if !o.alive {
+        return Some(format!("session not kept alive: peer saw close {:?}; injected {:?}, delivered {:?}", o.peer_saw_close, o.injected, o.delivered));
+    }
+    if o.delivered.wt_bi != o.injected.wt_bi || (o.injected.own_datagrams > 0 && o.delivered.own_datagrams == 0) {
+        return Some(format!("injected healthy traffic not delivered: injected {:?}, delivered {:?}", o.injected, o.delivered));
+    }
+    None
+}
+
+pub fn exec(case: &Case) -> CaseResult {
+    let c = Arc::new(case.clone());
+    let perturbed = match run_on(case.flavor, Duration::from_secs(30), run_script(c.clone(), true)) {
+        Some(Ok(o)) => o,
+        Some(Err(e)) => return CaseResult::Skip(format!("script failed: {e}")),
+        None => return CaseResult::Timeout("perturbed run did not finish in 30 s".into()),
+    };
+    let any_event = case.events.iter().any(|e| !e.is_empty());
+    let labels = vec![
+        match case.target {
+            Target::Settings => "target:settings",
+            Target::GreaseAfterSettings => "target:grease-after-settings",
+            Target::RequestHeaders => "target:request-headers",
+            Target::ResponseHeaders => "target:response-headers",
+            Target::GreaseBeforeResponse => "target:grease-before-response",
+            Target::CloseCapsule => "target:close-capsule",
+            Target::UnknownCapsuleBeforeClose => "target:unknown-capsule",
+        },
+        if perturbed.hazard { "hazard-window-observed" } else { "hazard-window-not-observed" },
+    ];
+    match judge_out(case, &perturbed) {
+        None => CaseResult::Pass { nontrivial: perturbed.hazard || any_event, labels },
+        Some(problem) => {
+            // metamorphic twin: the same script in one piece with nothing in between
+            let twin = match run_on(case.flavor, Duration::from_secs(30), run_script(c, false)) {
+                Some(Ok(o)) => o,
+                Some(Err(e)) => return CaseResult::Skip(format!("twin script failed: {e}")),
+                None => return CaseResult::Skip("twin run did not finish".into()),
+            };
+            if judge_out(case, &twin).is_some() {
+                return CaseResult::Skip(format!("the unperturbed twin deviates as well ({problem}); not attributable to segmentation"));
+            }
+            viol(
+                format!("C05:torn:{:?}", case.target),
+                format!("with the {:?} frame cut into {} pieces and events {:?} in between: {problem}; the same script in one piece behaves as expected", case.target, pieces(&target_bytes(case, "127.0.0.1:1"), &case.cuts).len(), case.events),
+            )
+        }
+    }
+}
+
+pub fn run(run: &Run) {
+    run.set_rule(RULE);
+    run.assume("cases run one at a time so that the hook counters (coverage labels only) are attributable to the case");
+    run.trust("hook counters WORKER_LOOP_ITERATIONS / PARTIAL_READ_DROPS are used for labelling only, never for the verdict");
+    // table: every single cut position of SETTINGS and of the close capsule with one datagram in between
+    let mut table: Vec<Case> = Vec::new();
+    for (target, wt_is_server) in [(Target::Settings, true), (Target::Settings, false), (Target::CloseCapsule, true), (Target::CloseCapsule, false), (Target::ResponseHeaders, false), (Target::RequestHeaders, true)] {
+        let probe = Case { flavor: 0, wt_is_server, target, cuts: vec![0], events: vec![vec![Event::DatagramOwn]], code: 77, reason: "bye".into() };
+        let n = target_bytes(&probe, "127.0.0.1:65535").len();
+        let step = run.tier.pick(if n > 24 { (n / 12).max(1) } else { 2 }, 1);
+        let mut p = 1;
+        while p < n {
+            // selector that maps onto position p
+            let sel = (((p - 1) as u64 * 65536 + 65535) / (n as u64 - 1).max(1)).min(65535) as u16;
+            table.push(Case { flavor: (p % 3) as u8, wt_is_server, target, cuts: vec![sel], events: vec![vec![if p % 2 == 0 { Event::DatagramOwn } else { Event::UniWt }]], code: 77, reason: "bye".into() });
+            p += step;
+        }
+    }
+    for case in &table {
+        match judge(|| exec(case), false, "C05:hang") {
+            Outcome::Pass { nontrivial, labels } => {
+                run.eval("cut-table", nontrivial, vcore::hash64(&format!("{case:?}")));
+                for l in labels {
+                    run.label(l);
+                }
+                if nontrivial && run.wants_sample("cut-table") {
+                    run.sample("cut-table", || serde_json::to_value(case).unwrap());
+                }
+            }
+            Outcome::Fail { signature, message } => {
+                run.eval("cut-table", false, 0);
+                run.fail("segmentation", &signature, &message, serde_json::to_value(case).unwrap());
+            }
+            Outcome::Inconclusive(w) => run.inconclusive(&w),
+        }
+    }
+    run.section_exhaustive("cut-table", run.tier == vcore::Tier::Thorough, "single cut positions of SETTINGS, close capsule, request and response HEADERS (every position in the thorough tier, every n/12-th in quick) with one event in between, both roles");
+    prop_search(
+        run,
+        Search { check: "segmentation", cases: run.tier.pick(160, 2500), workers: 1, max_shrink_iters: 40 },
+        case_strategy,
+        |c| judge(|| exec(c), false, "C05:hang"),
+        |c| serde_json::to_value(c).unwrap(),
+    );
+    for l in ["target:settings", "target:close-capsule", "target:request-headers", "target:response-headers", "target:grease-after-settings", "target:unknown-capsule", "hazard-window-observed"] {
+        run.essential(l);
+    }
+}
+
+pub fn replay(run: &Run, doc: &Value) -> bool {
+    let Ok(case) = serde_json::from_value::<Case>(doc["case"].clone()) else {
+        return false;
+    };
+    run.eval("segmentation", true, 1);
+    for _ in 0..3 {
+        if let Outcome::Fail { signature, message } = judge(|| exec(&case), false, "C05:hang") {
+            run.fail("segmentation", &signature, &message, doc["case"].clone());
+            break;
+        }
+    }
+    true
 }
